@@ -159,9 +159,10 @@ def gateError (c : C) (p : Pkt) : Nat :=
   else if tooLarge c p then eTooLarge
   else eNotAllowed
 
-/-- identifier released by a gate refusal -/
+/-- identifier released by a gate refusal (fix 1d0ef05: a version or role refusal releases the
+    identifier of a PUBLISH / SUBSCRIBE / UNSUBSCRIBE as the per-kind refusals do) -/
 def gateRelease (c : C) (p : Pkt) : Option Nat :=
-  if c.s.ver ≠ p.ver ∨ Spec.roleMaySend c.cfg.role p.kind p.ver = false then none
+  if c.s.ver ≠ p.ver ∨ Spec.roleMaySend c.cfg.role p.kind p.ver = false then initiatingId p
   else match p.kind with
     | .publish => if tooLarge c p ∨ p.qos > 0 then p.pid else none
     | .subscribe | .unsubscribe => some (p.pid.getD 0)
@@ -257,8 +258,11 @@ theorem send_refused (c : C) (p : Pkt) (wf : Spec.PktWf p)
         Bool.false_eq_true, false_or]
       exact this
     · have hr' : Spec.roleMaySend c.cfg.role p.kind p.ver = false := by simpa using hr
-      simp [hv, roleMaySend_eq_spec, hr']
-  · simp [hv]
+      simp only [hv, ne_eq, not_true_eq_false, if_false, roleMaySend_eq_spec, hr', Bool.not_false,
+        if_true, or_true]
+      unfold refuseSend; cases initiatingId p <;> rfl
+  · simp only [ne_eq, hv, not_false_eq_true, if_true, true_or]
+    unfold refuseSend; cases initiatingId p <;> rfl
 
 /-- packets that cannot be constructed (a QoS>0 PUBLISH without identifier, a v3.1.1 AUTH)
     are never transmitted or stored either -/
@@ -276,6 +280,13 @@ theorem send_nonwf (c : C) (p : Pkt) (hver : p.ver = 4 ∨ p.ver = 5) (h : ¬ Sp
         cases hp : p.pid with
         | none => exact absurd ⟨hk, hq, hp⟩ h2
         | some _ => rfl
+  have hini : initiatingId p = none := by
+    unfold initiatingId
+    rcases h' with ⟨hk, _⟩ | ⟨_, _, hp⟩
+    · simp [hk]
+    · simp [hp]
+  have href : ∀ e, refuseSend c e p = c.err e := by
+    intro e; unfold refuseSend; rw [hini]
   unfold send
   by_cases hv : c.s.ver = p.ver
   · by_cases hr : roleMaySend c.cfg.role p = true
@@ -287,8 +298,8 @@ theorem send_nonwf (c : C) (p : Pkt) (hver : p.ver = 4 ∨ p.ver = 5) (h : ¬ Sp
         · have : ¬ p.ver = 4 := by omega
           by_cases hs : sizeOk c p = true <;>
             simp [processSend, this, hk, psV5Publish, hq, hp, C.setPanic, hs]
-    · simp [hv, hr]
-  · simp [hv]
+    · simp [hv, hr, href]
+  · simp [hv, href]
 
 
 /-! ## "this id is free afterwards": the allocator side (via the C20 refinement) -/
